@@ -5,6 +5,10 @@
 //!                                              `current().shutdown()` at that time (it is inactive afterwards)
 //!   gate g<j> mod=m<i>                         single gate named `g<j>` on that module
 //!   gate g<j> mod=m<i> cl=c<k> pos=<p> size=<s>   member `p` of the gate cluster `c<k>` (size `s`)
+//!   (gate … raw=1: the cluster member is created on its own with `create_raw_gate`, in script order)
+//!   (connect … q=<bytes>: the channel queues at most <bytes> (`Queue(Some(..))`) instead of without limit)
+//!   (send … burst=<n>: <n> messages back to back in the same handler; via=ctx|tuple|ref: the gate is found with
+//!    `current().gate(name, pos)`, addressed as `(name, pos)`, or passed as the GateRef kept at creation)
 //!   connect g<a> g<b> ch=none|<ns> [br=<bit/s>]   `g<a>.connect(g<b>, channel)`; channel = latency <ns>, bitrate
 //!                                              <br> (default 0 = no transmission time, never busy), no jitter
 //!   lconnect g<a> g<b> ch=… [br=…] at=<ns> by=m<i>   the same call made at run time: module m<i> connects the
@@ -63,6 +67,9 @@ struct SendOp {
     rcv: Option<String>,
     snd: Option<String>,
     legs: Vec<(String, u64)>,
+    burst: u16,
+    via: String,
+    gate_script: String,
 }
 
 #[derive(Clone, Debug)]
@@ -74,6 +81,7 @@ struct Delivery {
     receiver: u16,
     last: Option<(String, String, usize)>, // owner path, gate name, pos
     leg: usize,
+    member: u16,
 }
 
 #[derive(Default)]
@@ -86,6 +94,7 @@ struct Shared {
     by_name: HashMap<String, u16>,                 // module path -> id (known after the build)
     legs: HashMap<u16, Vec<(String, u64)>>,        // send idx -> forwarding legs
     stops: HashMap<u16, &'static str>,             // send idx -> why the next forward was not made
+    bursts: HashMap<u16, u16>,                     // send idx -> number of messages sent back to back
 }
 
 struct Node {
@@ -105,13 +114,20 @@ impl Node {
         // a full gate would make `connect` panic inside the module
         let ok = op.a != op.b && ga.kind() != GateKind::Transit && gb.kind() != GateKind::Transit;
         if ok {
+            QLIMIT.with(|q| q.set(None));
             ga.connect(gb, op.lat.map(|l| channel(l, op.br)));
         }
         self.shared.lock().unwrap().late_done.push((op.idx, if ok { "ok" } else { "skipped" }));
     }
 
     fn do_send(&self, op: &SendOp) {
-        let Some(gate) = current().gate(&op.gate_name, op.gate_pos) else {
+        // how the gate is addressed
+        let by_ref = GATES.with(|g| g.borrow().get(&op.gate_script).cloned());
+        let gate = match op.via.as_str() {
+            "ref" | "tuple" => by_ref,
+            _ => current().gate(&op.gate_name, op.gate_pos),
+        };
+        let Some(gate) = gate else {
             return;
         };
         if self.shared.lock().unwrap().disabled.contains(&op.idx) {
@@ -122,20 +138,24 @@ impl Node {
             self.shared.lock().unwrap().skipped.push(op.idx);
             return;
         }
-        let mut msg = Message::default().kind(DATA).id(op.idx);
-        {
-            let sh = self.shared.lock().unwrap();
-            if let Some(id) = op.rcv.as_ref().and_then(|m| sh.by_name.get(m)) {
-                msg = msg.receiver_module_id(ModuleId(*id));
+        for member in 0..op.burst.max(1) {
+            let mut msg = Message::default().kind(DATA + member).id(op.idx);
+            {
+                let sh = self.shared.lock().unwrap();
+                if let Some(id) = op.rcv.as_ref().and_then(|m| sh.by_name.get(m)) {
+                    msg = msg.receiver_module_id(ModuleId(*id));
+                }
+                if let Some(id) = op.snd.as_ref().and_then(|m| sh.by_name.get(m)) {
+                    msg = msg.sender_module_id(ModuleId(*id));
+                }
             }
-            if let Some(id) = op.snd.as_ref().and_then(|m| sh.by_name.get(m)) {
-                msg = msg.sender_module_id(ModuleId(*id));
+            let d = Duration::from_nanos(op.delay);
+            match (op.via.as_str(), op.delay) {
+                ("tuple", 0) => send(msg, (op.gate_name.as_str(), op.gate_pos)),
+                ("tuple", _) => send_in(msg, (op.gate_name.as_str(), op.gate_pos), d),
+                (_, 0) => send(msg, gate.clone()),
+                (_, _) => send_in(msg, gate.clone(), d),
             }
-        }
-        if op.delay == 0 {
-            send(msg, gate);
-        } else {
-            send_in(msg, gate, Duration::from_nanos(op.delay));
         }
     }
 }
@@ -191,10 +211,11 @@ impl Module for Node {
             )
         });
         let idx = h.id;
+        let member = h.kind.wrapping_sub(DATA);
         let back = h.last_gate.clone();
         let next_leg = {
             let mut sh = self.shared.lock().unwrap();
-            let leg = sh.deliveries.iter().filter(|d| d.idx == idx).count();
+            let leg = sh.deliveries.iter().filter(|d| d.idx == idx && d.member == member).count();
             let d = Delivery {
                 idx,
                 rx_path: current().path().as_str().to_string(),
@@ -203,6 +224,7 @@ impl Module for Node {
                 receiver: h.receiver_module_id.0,
                 last,
                 leg,
+                member,
             };
             sh.deliveries.push(d);
             sh.legs.get(&idx).and_then(|l| l.get(leg).cloned())
@@ -229,10 +251,16 @@ fn tx_of(ch: &ChannelRef) -> u128 {
     ch.calculate_busy(&Message::default().kind(DATA)).as_nanos()
 }
 
+thread_local! {
+    /// queue limit of the channel being built (`q=<bytes>` of the current connect line)
+    static QLIMIT: std::cell::Cell<Option<usize>> = std::cell::Cell::new(None);
+}
+
 fn parse_chan(tok: &[&str]) -> (Option<u64>, u64) {
     let l = tok.join(" ");
     let lat = hval(&l, "ch").and_then(|v| v.parse::<u64>().ok());
     let br = hval(&l, "br").and_then(|v| v.parse::<u64>().ok()).unwrap_or(0);
+    QLIMIT.with(|q| q.set(hval(&l, "q").and_then(|v| v.parse::<usize>().ok())));
     (lat, br)
 }
 
@@ -241,7 +269,7 @@ fn channel(ns: u64, bitrate: u64) -> ChannelRef {
         bitrate: bitrate as usize,
         latency: Duration::from_nanos(ns),
         jitter: Duration::ZERO,
-        drop_behaviour: ChannelDropBehaviour::Queue(None),
+        drop_behaviour: ChannelDropBehaviour::Queue(QLIMIT.with(|q| q.get())),
     })
 }
 
@@ -318,6 +346,9 @@ fn run_case(header: &str, body: &[String], out: &mut String) {
                 from_start: hval(&l, "from").map(|v| v == "start").unwrap_or(false),
                 rcv: hval(&l, "rcv"),
                 snd: hval(&l, "snd"),
+                burst: hval(&l, "burst").and_then(|v| v.parse().ok()).unwrap_or(1),
+                via: hval(&l, "via").unwrap_or_else(|| "ctx".into()),
+                gate_script: g.clone(),
                 legs: hval(&l, "fwd")
                     .map(|f| {
                         f.split(',')
@@ -411,6 +442,13 @@ fn run_case(header: &str, body: &[String], out: &mut String) {
                     continue;
                 }
                 let r = match hval(&l, "cl") {
+                    Some(c) if hval(&l, "raw").is_some() => {
+                        // one member on its own, in script order
+                        let size: usize = hval(&l, "size").and_then(|v| v.parse().ok()).unwrap_or(1);
+                        let pos = info.pos;
+                        sim.get(&info.owner.as_str().into())
+                            .and_then(|m| guarded(|| m.create_raw_gate(&c, size, pos)).ok())
+                    }
                     Some(c) => {
                         let size: usize = hval(&l, "size").and_then(|v| v.parse().ok()).unwrap_or(1);
                         let pos = info.pos;
@@ -519,8 +557,11 @@ fn run_case(header: &str, body: &[String], out: &mut String) {
         let mut sh = shared.lock().unwrap();
         for ops in sends_of.values() {
             for op in ops {
-                if !op.legs.is_empty() {
+                if !op.legs.is_empty() && op.burst <= 1 {
                     sh.legs.insert(op.idx, op.legs.clone());
+                }
+                if op.burst >= 2 {
+                    sh.bursts.insert(op.idx, op.burst);
                 }
             }
         }
@@ -553,10 +594,37 @@ fn run_case(header: &str, body: &[String], out: &mut String) {
                     continue;
                 }
                 let name = |id: u16| sh.ids.get(&id).cloned().unwrap_or_else(|| format!("#{id}"));
+                if let Some(burst) = sh.bursts.get(&idx) {
+                    // one segment per message of the burst, in offer order
+                    let mut segs: Vec<String> = Vec::new();
+                    for member in 0..*burst {
+                        let ds: Vec<&Delivery> = sh.deliveries.iter().filter(|d| d.idx == idx && d.member == member).collect();
+                        if ds.is_empty() {
+                            segs.push("n=0".into());
+                            continue;
+                        }
+                        let d = ds[0];
+                        let last = match &d.last {
+                            Some(k) => rev.get(k).cloned().unwrap_or_else(|| "?".into()),
+                            None => "none".into(),
+                        };
+                        segs.push(format!(
+                            "n={} rx={} t={} sender={} receiver={} last={}",
+                            ds.len(),
+                            d.rx_path,
+                            d.t,
+                            name(d.sender),
+                            name(d.receiver),
+                            last
+                        ));
+                    }
+                    writeln!(out, "{s} -> {}", segs.join(" ; ")).unwrap();
+                    continue;
+                }
                 let nlegs = sh.legs.get(&idx).map(|l| l.len()).unwrap_or(0);
                 let mut segs: Vec<String> = Vec::new();
                 for k in 0..=nlegs {
-                    let ds: Vec<&Delivery> = sh.deliveries.iter().filter(|d| d.idx == idx && d.leg == k).collect();
+                    let ds: Vec<&Delivery> = sh.deliveries.iter().filter(|d| d.idx == idx && d.member == 0 && d.leg == k).collect();
                     if ds.is_empty() {
                         if k == 0 {
                             segs.push("n=0".into());
@@ -621,9 +689,10 @@ pub fn gen(seed: u64, count: usize, thorough: bool) -> String {
         let extra = r.below(5) as usize;
         let ngates = hops + 1 + extra;
         // 0: latency-only channels; 1: channels with a finite bitrate; 2: part of the wiring happens at run time
-        let mode = r.below(3);
+        // 3: bursts over chains whose channels have a finite bitrate and queue
+        let mode = r.below(4);
         writeln!(out, "case {k} hops={hops} mode={mode}").unwrap();
-        let with_down = nmods >= 2 && r.chance(1, 2);
+        let with_down = mode != 3 && nmods >= 2 && r.chance(1, 2);
         for m in 0..nmods {
             if with_down && r.chance(1, 3) {
                 writeln!(out, "mod m{m} down={}", r.pick(&DOWNS)).unwrap();
@@ -635,13 +704,41 @@ pub fn gen(seed: u64, count: usize, thorough: bool) -> String {
         let mut g = 0;
         let mut cl = 0;
         let mut owners: Vec<u64> = Vec::new();
+        let mut pending_single = false;
         while g < ngates {
             let m = r.below(nmods as u64);
-            if r.chance(1, 4) && g + 1 < ngates {
+            if r.chance(1, 3) && g + 1 < ngates {
                 let size = (r.range(2, 3) as usize).min(ngates - g);
-                for p in 0..size {
-                    writeln!(out, "gate g{} mod=m{m} cl=c{cl} pos={p} size={size}", g + p).unwrap();
-                    owners.push(m);
+                if r.chance(1, 2) {
+                    // the members are created one by one (`create_raw_gate`) in a random order, sometimes with
+                    // another gate of the same module in between
+                    let mut order: Vec<usize> = (0..size).collect();
+                    for i in (1..size).rev() {
+                        let j = r.below(i as u64 + 1) as usize;
+                        order.swap(i, j);
+                    }
+                    let mut between = r.chance(1, 2) && g + size < ngates;
+                    for (k, p) in order.iter().enumerate() {
+                        writeln!(out, "gate g{} mod=m{m} cl=c{cl} pos={p} size={size} raw=1", g + p).unwrap();
+                        if between && k == 0 {
+                            writeln!(out, "gate g{} mod=m{m}", g + size).unwrap();
+                            between = false;
+                            pending_single = true;
+                        }
+                    }
+                    for _ in 0..size {
+                        owners.push(m);
+                    }
+                    if pending_single {
+                        owners.push(m);
+                        g += 1;
+                        pending_single = false;
+                    }
+                } else {
+                    for p in 0..size {
+                        writeln!(out, "gate g{} mod=m{m} cl=c{cl} pos={p} size={size}", g + p).unwrap();
+                        owners.push(m);
+                    }
                 }
                 cl += 1;
                 g += size;
@@ -663,19 +760,37 @@ pub fn gen(seed: u64, count: usize, thorough: bool) -> String {
             chains.push(perm[hops + 1..hops + 1 + len].to_vec());
         }
         // a channel: (latency, bitrate)
-        let mut mkch = |r: &mut Rng| -> Option<(u64, u64)> {
+        // mode 3: either several unbounded-queue finite-bitrate hops, or exactly one finite-bitrate hop (with a
+        // bounded queue) in the whole case — then all messages of a burst reach it at the same instant
+        let single_limited = mode == 3 && r.chance(1, 3);
+        let mut limited_left = if single_limited { 1 } else { 0 };
+        let mut mkch = |r: &mut Rng| -> Option<(u64, u64, u64)> {
+            if mode == 3 {
+                if single_limited {
+                    if limited_left > 0 && r.chance(1, 2) {
+                        limited_left -= 1;
+                        return Some((if r.chance(1, 2) { 0 } else { *r.pick(&DELAYS) }, *r.pick(&BITRATES), 1 + 64 * r.below(3)));
+                    }
+                    return if r.chance(1, 2) { None } else { Some((*r.pick(&DELAYS), 0, 0)) };
+                }
+                return match r.below(6) {
+                    0 | 1 => None,
+                    2 => Some((*r.pick(&DELAYS), 0, 0)),
+                    _ => Some((if r.chance(1, 2) { 0 } else { *r.pick(&DELAYS) }, *r.pick(&BITRATES), 0)),
+                };
+            }
             if r.chance(1, 2) {
                 None
             } else if mode == 1 && r.chance(2, 3) {
                 // finite bitrate, half of them without any latency
-                Some((if r.chance(1, 2) { 0 } else { *r.pick(&DELAYS) }, *r.pick(&BITRATES)))
+                Some((if r.chance(1, 2) { 0 } else { *r.pick(&DELAYS) }, *r.pick(&BITRATES), 0))
             } else if r.chance(1, 10) {
-                Some((0, 0))
+                Some((0, 0, 0))
             } else {
-                Some((*r.pick(&DELAYS), 0))
+                Some((*r.pick(&DELAYS), 0, 0))
             }
         };
-        let mut links: Vec<(usize, usize, Option<(u64, u64)>)> = Vec::new();
+        let mut links: Vec<(usize, usize, Option<(u64, u64, u64)>)> = Vec::new();
         for c in &chains {
             for w in c.windows(2) {
                 let ch = mkch(&mut r);
@@ -690,10 +805,11 @@ pub fn gen(seed: u64, count: usize, thorough: bool) -> String {
             let j = r.below(i as u64 + 1) as usize;
             links.swap(i, j);
         }
-        let chs = |c: Option<(u64, u64)>| match c {
+        let chs = |c: Option<(u64, u64, u64)>| match c {
             None => "ch=none".to_string(),
-            Some((l, 0)) => format!("ch={l}"),
-            Some((l, b)) => format!("ch={l} br={b}"),
+            Some((l, 0, _)) => format!("ch={l}"),
+            Some((l, b, 0)) => format!("ch={l} br={b}"),
+            Some((l, b, q)) => format!("ch={l} br={b} q={}", q - 1),
         };
         // mode 2: one to three links are connected by some module while the simulation runs
         let mut late_times: Vec<u64> = LATES.to_vec();
@@ -730,11 +846,11 @@ pub fn gen(seed: u64, count: usize, thorough: bool) -> String {
                     writeln!(out, "connect g{x} g{x} ch=none").unwrap();
                 }
                 // (not while part of the wiring is deferred: closing a ring under a travelling message makes it circulate forever)
-                2 if mode != 2 && r.chance(1, 3) => {
+                2 if mode != 2 && mode != 3 && r.chance(1, 3) => {
                     // arbitrary pair: may panic (full), may legitimately join or close something
                     let x = r.below(ngates as u64);
                     let y = r.below(ngates as u64);
-                    writeln!(out, "connect g{x} g{y} {}", chs(Some((*r.pick(&DELAYS), 0)))).unwrap();
+                    writeln!(out, "connect g{x} g{y} {}", chs(Some((*r.pick(&DELAYS), 0, 0)))).unwrap();
                 }
                 3 | 4 => {
                     writeln!(out, "walk g{}", r.below(ngates as u64)).unwrap();
@@ -742,7 +858,7 @@ pub fn gen(seed: u64, count: usize, thorough: bool) -> String {
                 _ => {}
             }
         }
-        if mode != 2 && r.chance(1, 12) {
+        if mode != 2 && mode != 3 && r.chance(1, 12) {
             // close the main chain into a ring
             let c = &chains[0];
             writeln!(out, "connect g{} g{} ch=none", c[c.len() - 1], c[0]).unwrap();
@@ -768,6 +884,8 @@ pub fn gen(seed: u64, count: usize, thorough: bool) -> String {
             writeln!(out, "send s{s} gate=g{c0} at=0 delay=2500000010 from={}", if r.chance(1, 2) { "start" } else { "msg" }).unwrap();
             s += 1;
         }
+        let mut prev_gate = usize::MAX;
+        let mut slot_of_prev = 0u64;
         for g in targets {
             let reps = if r.chance(1, 4) { 2 } else { 1 };
             for _ in 0..reps {
@@ -776,11 +894,31 @@ pub fn gen(seed: u64, count: usize, thorough: bool) -> String {
                     2 => 2 * r.range(1, 1000),
                     _ => *r.pick(&DELAYS),
                 };
-                // finite bitrates: one message at a time in the whole network
-                let at = if mode == 1 { s as u64 * GAP + at } else { at };
+                // finite bitrates: one message (one burst) at a time in the whole network
+                // (mode 3: sometimes together with the previous burst when that started on another gate: opposite
+                // directions and different chains do not share a channel)
+                let slot = if mode == 3 && s > 0 && prev_gate != g && slot_of_prev + 1 == s as u64 && r.chance(1, 3) { slot_of_prev } else { s as u64 };
+                slot_of_prev = slot;
+                prev_gate = g;
+                let at = if mode == 1 || mode == 3 { slot * GAP + at } else { at };
                 let delay = if r.chance(1, 2) { 0 } else { *r.pick(&DELAYS) + 2 * r.below(3) };
                 let from = if at == 0 && r.chance(1, 2) { "start" } else { "msg" };
                 let mut extra = String::new();
+                // how the gate is addressed
+                match r.below(4) {
+                    0 => extra.push_str(" via=tuple"),
+                    1 => extra.push_str(" via=ref"),
+                    _ => {}
+                }
+                if mode == 3 {
+                    // 2-4 messages back to back
+                    if r.chance(3, 4) {
+                        write!(extra, " burst={}", r.range(2, 4)).unwrap();
+                    }
+                    writeln!(out, "send s{s} gate=g{g} at={at} delay={delay} from={from}{extra}").unwrap();
+                    s += 1;
+                    continue;
+                }
                 // messages built with explicit ids
                 if r.chance(1, 2) {
                     // mostly a module other than the one the chain leads to
